@@ -13,6 +13,7 @@ import QtyModel.Typing
 import QtyModel.TypingSpec
 import QtyModel.Spec.Temperature
 import QtyModel.Generated.TempTable
+import QtyModel.TempRows
 /-
   Line-protocol driver.
 
@@ -205,15 +206,6 @@ def parseRows {A} (C : Codec A) (s : String) : Option (List (ConvRow A)) :=
       let off ← C.parse off
       pure { fromU := f, toU := t, factor := fa, offset := off }
     | _ => none)
-
-/-- the regenerated temperature table for this back-end: constants resolved to unit indices -/
-def tempRows {A} (R : Arith A) (T : RTable A) : Option (List (ConvRow A)) :=
-  Gen.Temp.rows.mapM (fun (f, t, fa, off) => do
-    let fi ← T.units.toList.findIdx? (fun u => u.constName == f)
-    let ti ← T.units.toList.findIdx? (fun u => u.constName == t)
-    let fa ← R.ofLit fa
-    let off ← R.ofLit off
-    pure { fromU := fi, toU := ti, factor := fa, offset := off })
 
 def parseSpec (flags w p : String) : Option Fmt.Spec :=
   match flags.toList with
@@ -961,7 +953,14 @@ def frontLine (d : QtyDef) : String :=
     s!" | {Text.toString u.ident},{hexOfText u.name},{hexOfText u.symbol},{o u.pfx},{match u.scale with | some l => canonLit l | none => "-"},{oh u.doc}")
   let consts := ",".intercalate (d.units.map (fun u => s!"{Text.toString u.constName}={Text.toString u.ident}"))
   let variants := ",".intercalate (d.units.map (fun u => Text.toString u.ident))
-  s!"ok {Text.toString d.name} ref={o d.refIdent} derived={der}{String.join units} # {"; ".intercalate (frontImpls d)} # consts {consts} # variants {variants}"
+  -- what the GENERATED accessors `name()`, `symbol()`, `si_prefix()`, `scale()` answer per variant
+  -- (`scale()` exists only for types with a reference unit)
+  let arms := " | ".intercalate (d.units.map (fun u =>
+    let sc := match d.refIdent with
+      | some _ => (match u.scale with | some l => "l:" ++ canonLit l | none => "missing")
+      | none => "-"
+    s!"{Text.toString u.ident},s:{hexOfText u.name},s:{hexOfText u.symbol},p:{o u.pfx},{sc}"))
+  s!"ok {Text.toString d.name} ref={o d.refIdent} derived={der}{String.join units} # {"; ".intercalate (frontImpls d)} # consts {consts} # variants {variants} # arms {arms}"
 
 
 def runWith {A} (R : Arith A) (C : Codec A) (M : ErrModel) (AT : AmtText A) (AS : AmtSer A) (isF64 : Bool) (args : List String) : IO UInt32 := do
